@@ -123,12 +123,14 @@ def from_term(t, opaque, defs=None, depth=0):
         if len(pb) == 1:
             (mb, cb), = pb.items()
             if mb and cb:
-                key = "quot:" + t.sexpr()
+                # one atom per value: keyed by (numerator / coefficient, denominator monomial), not by spelling
+                pa = from_term(ch[0], opaque, defs, depth + 1)
+                num = {m: c / cb for m, c in pa.items()}
+                key = "quot:" + repr((sorted(num.items()), mb))
                 name = opaque.get(key)
                 if name is None:
                     name = opaque[key] = "quo#%d" % len(opaque)
-                    pa = from_term(ch[0], opaque, defs, depth + 1)
-                    opaque.setdefault("__dyn__", []).append(((name,) + tuple(v for v, e in mb for _ in range(e)), {m: c / cb for m, c in pa.items()}))
+                    opaque.setdefault("__dyn__", []).append(((name,) + tuple(v for v, e in mb for _ in range(e)), num))
                 return var(name)
     if k == z3.Z3_OP_TO_REAL:
         return from_term(ch[0], opaque, defs, depth + 1)
@@ -141,20 +143,42 @@ def from_term(t, opaque, defs=None, depth=0):
     return var(name)
 
 
+def _rank(name):
+    for part in name.split("!")[1:]:
+        if part.isdigit():
+            return int(part)
+    return -1
+
+
 def reduce(p, rules, limit=400):
     """rewrite with rules {var: (power, polynomial)}: var^power -> polynomial, and product
     rules {(v1, v2): polynomial}: v1*v2 -> polynomial"""
     prules = {k: r for k, r in rules.items() if isinstance(k, tuple)}
+    den_vars = {v for k in prules if any(x.startswith("quo#") for x in k) for v in k if not v.startswith("quo#")}
     for _ in range(limit):
         changed = False
         out = {}
         for m, c in p.items():
             hit = None
-            for i, (v, e) in enumerate(m):
-                r = rules.get(v)
-                if r is not None and e >= r[0]:
-                    hit = (i, v, e, r)
-                    break
+            # a quotient q = a/b is eliminated through q*b -> a before b's own power rule can
+            # take b away from it
+            quo_first = prules and any(v.startswith("quo#") for v, _ in m)
+            if not quo_first:
+                later = None
+                for i, (v, e) in enumerate(m):
+                    r = rules.get(v)
+                    if r is not None and e >= r[0]:
+                        if v in den_vars:
+                            # a denominator of some quotient: keep it until the quotient shows up;
+                            # among those, the most recently created witness first (its radicand can
+                            # only mention older ones)
+                            if later is None or _rank(v) > _rank(later[1]):
+                                later = (i, v, e, r)
+                            continue
+                        hit = (i, v, e, r)
+                        break
+                if hit is None:
+                    hit = later
             if hit is None and prules:
                 names = dict(m)
                 for vs, rp in prules.items():
@@ -173,6 +197,12 @@ def reduce(p, rules, limit=400):
                         break
                 if hit == "done":
                     continue
+            if hit is None and quo_first:
+                for i, (v, e) in enumerate(m):
+                    r = rules.get(v)
+                    if r is not None and e >= r[0]:
+                        hit = (i, v, e, r)
+                        break
             if hit is None:
                 out[m] = out.get(m, 0) + c
                 if not out[m]:
